@@ -19,10 +19,12 @@ meta.update({
     "demo_exit_changed": 1 if "exit=1" in ver else None,
     "demo_exit_unchanged": 0 if "exit=0" in ver else None,
     "suite_with_change": (re.findall(r"\d+ failed, \d+ passed", ver) or [None])[0],
+    "first_result": dict((p, r) for p, r in reversed(caught)),
     "detected_by": dict((p, r) for p, r in caught),
     "keys_that_fired": keys[:8],
     "note": note,
 })
 json.dump(meta, open(os.path.join(out, "meta.json"), "w"), indent=1)
-subprocess.run(["git", "-C", "/repo", "worktree", "remove", "--force", "/tmp/wt-%s" % ID])
+if os.path.isdir("/tmp/wt-%s" % ID):
+    subprocess.run(["git", "-C", "/repo", "worktree", "remove", "--force", "/tmp/wt-%s" % ID])
 print(ID, meta["detected_by"], meta["suite_with_change"])
